@@ -1,5 +1,6 @@
 import IpamVerif.AllocLemmas
 import IpamVerif.System
+import IpamVerif.Props.C11
 /-!
 # C05 — a node is refused only when no eligible ClusterCIDR has room
 
@@ -124,5 +125,12 @@ theorem refusal_reported (s : Sys) (n : NodeObj) (refresh : Bool) (ws : List WOu
     simp only at h
     subst h
     exact ⟨rfl, rfl, rfl⟩
+
+/-- "so the node is retried": in the program text the error branch of the node worker loop re-queues the
+key as a statement of its own — not under a retry budget or an error class — and only the success path
+forgets it (regenerated fact, `Props/C11`) -/
+theorem refused_node_is_queued_again :
+    ("processNextNodeWorkItem", true, true) ∈ Facts.workerLoops := by
+  rw [C11.workerLoopsRequeue]; decide
 
 end Ipam.C05
